@@ -22,6 +22,12 @@ structure St where
 
 def St.init : St := { h := Heap.empty, vals := List.replicate 8 none, pkts := List.replicate 4 none }
 
+/-- the same heap with its cell map tabulated (the model heap is a function; every alloc / free / write wraps it once more,
+    so the driver flattens it after each operation to keep look-ups cheap) -/
+def compact (h : Heap) : Heap :=
+  let arr : Array (Option Cell) := (Array.range h.next).map h.cell
+  { cell := fun a => if hlt : a < arr.size then arr[a] else none, next := h.next }
+
 /-- live blocks: model cells + 2 per non-empty uthash map -/
 def total (h : Heap) : Nat :=
   (List.range h.next).foldl (fun n a =>
@@ -458,7 +464,8 @@ def run (ops : List (List String)) : String := Id.run do
   for op in ops do
     match step st op with
     | none => out := "0" :: out
-    | some st' =>
+    | some st1 =>
+      let st' := { st1 with h := compact st1.h }
       let d : Int := (total st'.h : Int) - (total st.h : Int)
       out := toString d :: out
       st := st'
